@@ -56,7 +56,10 @@ def shape_value(d):
     if t in ("int", "bool", "str", "fn", "gen", "native"):
         return {"t": t}
     if t == "float":
-        return {"t": "float", "finite": d.get("exp") != 2047}
+        exp, bits = d.get("exp"), int(d.get("bits", "0"))
+        mant = bits & ((1 << 52) - 1)
+        cls = ("inf" if mant == 0 else "nan") if exp == 2047 else ("zero" if mant == 0 else "subnormal") if exp == 0 else "normal"
+        return {"t": "float", "finite": exp != 2047, "class": cls}
     if t in ("seq", "stack"):
         return {"t": t, "v": [shape_value(x) for x in d["v"]]}
     if t == "struct":
